@@ -7,6 +7,8 @@ that one RTO transition from EVERY current state equals mu_post + Lambda^-1 M^T 
 the exact integers / rationals.  This module builds the real posteriors, scripts the standard-normal perturbation
 to 0 and to the unit vectors, performs ONE transition of the real samplers from different current states and compares
 offset and covariance with TLC's numbers; it also applies the stacked operator the sampler built, in both directions.
+Part "hard" of the spec (ill-conditioned instances on which floating-point CGLS needs more than n iterations): see the
+section "ILL-CONDITIONED instances" below.
 """
 META = {
     "claimed": True,
@@ -22,9 +24,16 @@ META = {
              "Sequences (LinGaussSeq.tla, pairs of configurations): ONE sampler object whose target is replaced as HybridGibbs does "
              "(target = other posterior; reinitialize(); set_state()), whose maxit / tol / beta / x0 are assigned between transitions "
              "and which makes several transitions from wherever it is: every transition is the exact draw of the posterior installed NOW "
-             "(invariant SeqDrawIsTargetDraw, deviation ReinitKeepsOperator refuted); the legacy 5-tuple is not modified and can be used again."),
-    "note": ("Bounded sizes (n, m <= 3), precisions on an integer/dyadic lattice; inner CGLS run with maxit=60, tol=1e-13 "
-             "('run to convergence'); RegularizedLinearRTO not covered (not a Gaussian draw); GMRF priors with zero boundary "
+             "(invariant SeqDrawIsTargetDraw, deviation ReinitKeepsOperator refuted); the legacy 5-tuple is not modified and can be used again.  "
+             "Ill-conditioned instances (LinGauss.tla part hard: one scalar datum with noise standard deviation 2^-20 / 2^-16, prior from the same "
+             "catalogue, a diagonal prior with 8 (6-12) distinct precisions, or the UGLA local Gaussian; cond(Lambda) 1e10-1e13): mean and covariance "
+             "in Kalman form, polynomial identities in the noise precision checked by TLC coefficient by coefficient; the harness first demonstrates "
+             "with an independent CGLS that n iterations miss the exact solution by > 1e-4 while the requested setting reaches 1e-8, then requires "
+             "both interfaces of LinearRTO (current states zero and far away, successive draws) and UGLA, with maxit / tol handed to the "
+             "constructor or assigned afterwards, to reproduce the exact mean / covariance (rtol 1e-6)."),
+    "note": ("Bounded sizes (n, m <= 3; ill-conditioned part n <= 12, m = 1), precisions on an integer/dyadic lattice; inner CGLS run with maxit=60, tol=1e-13 "
+             "('run to convergence'; ill-conditioned part: maxit = 4n+8, tol = 1e-20, comparison 1e-6, kappa = 1/(b + sigma^2) evaluated by the harness "
+             "from TLC's exact rationals); RegularizedLinearRTO not covered (not a Gaussian draw); GMRF priors with zero boundary "
              "condition only (the others are documented as inexact); point at which UGLA evaluates its weights (x_k or x_k - "
              "location) is not documented: either is accepted and recorded as an observation."),
     "technique": "TLA+ spec (LinGauss) model-checked with TLC; TLC-emitted cases replayed into the real samplers with scripted normals",
@@ -265,6 +274,411 @@ def check_ugla(ctx, variants):
 
 
 # --------------------------------------------------------------------------------------------------------------
+# ILL-CONDITIONED instances (LinGauss.tla part "hard"): floating-point CGLS needs MORE than n iterations
+# --------------------------------------------------------------------------------------------------------------
+# Solver setting the USER asks for on these instances: more iterations than unknowns, tiny tolerance.
+#   tol:   CGLS stops on the normal residual RELATIVE to the one of the starting point, which contains the factor
+#          T = sigma^-2 ~ 1e12 unless the start happens to fit the datum: with tol ~ 1e-15 the rule can be met before the
+#          small eigen-directions are resolved (legitimately: the solver did what it was asked).  "Tiny" is therefore 1e-20.
+#   maxit: 4 n + 8.  Measured (cuqi.solver.CGLS and the independent CGLS below, every instance / start / perturbation of
+#          both tiers): convergence to 1e-8 after at most 3 (n = 2), 5 (n = 3), 10 (n = 6), 17 (n = 8), 30 (n = 12)
+#          iterations, i.e. about 2.5 n.  Iterating on for hundreds of steps AFTER convergence is not harmless in floating
+#          point (ratios of rounding-level residuals; one instance degraded to 4e-8 after 150 steps), so the user asks for
+#          "enough", not for "as many as possible"; no degradation was seen within 40 steps after convergence.
+HARD_TOL = 1e-20
+
+
+def HARD_MAXIT(n):
+    return 4 * n + 8
+
+
+# Comparison tolerance of the ill-conditioned instances.  Measured on the unchanged tree (and with the independent CGLS
+# below): a converged double-precision CGLS delivers <= 2e-9 (offset) / <= 2e-8 (T T^T) on every instance and start;
+# CGLS stopped after n iterations is off by >= 1e-4.  An instance / start counts only if BOTH margins are >= HARD_GUARD.
+HARD_RTOL = 1e-6
+HARD_GUARD = 100.0
+
+
+def _hard_sig(case, iface, what):
+    L = _L()
+    if case["fam"] == "rto":
+        return "hard/rto/%s/%s/n=%d/prior=%s/mean=%s/model=%s/A=%d/noise=%s/se=%d" % (
+            iface, what, case["n"], L.form_tag(case["prior"]), case["mk"], case["mdl"], case["av"], case["noise"][0]["form"], case["se"])
+    s = case["scale_q"]
+    return "hard/ugla/%s/%s/loc=%s/scale=%s/n=%d/A=%d/noise=%s/beta=%d_%d/xk=%d/se=%d" % (
+        iface, what, case["lk"], ("%d" % s[0]) if s[1] == 1 else "%d_%d" % tuple(s), case["n"], case["av"],
+        case["noise"]["form"], case["beta_q"][0], case["beta_q"][1], case["u"], case["se"])
+
+
+def _hard_expect(case):
+    """Posterior mean / covariance of a `hard` case: TLC's exact Hi = H^-1, v = Hi g, b = g.v, u0, iota and its exact
+    rational sigma; only kappa = 1 / (b + sigma^2) is evaluated here (exact fractions; sigma^2 = 4^-se does not fit into
+    TLC's 32-bit integers):  mu = u0 + kappa iota v,  cov = Hi - kappa v v^T  (LinGauss.tla, HardKalmanForm)."""
+    from fractions import Fraction
+    fr = lambda q: Fraction(q[0], q[1])          # noqa: E731
+    n = case["n"]
+    Hi = [[fr(t) for t in row] for row in case["Hi_q"]]
+    v, u0 = [fr(t) for t in case["v_q"]], [fr(t) for t in case["u0_q"]]
+    b, iota, sigma = fr(case["b_q"]), fr(case["iota_q"]), fr(case["sigma_q"])
+    kappa = 1 / (b + sigma * sigma)
+    mu = np.array([float(u0[i] + kappa * iota * v[i]) for i in range(n)])
+    cov = np.array([[float(Hi[i][j] - kappa * v[i] * v[j]) for j in range(n)] for i in range(n)])
+    return mu, cov
+
+
+def _hard_stacked(case):
+    """The stacked whitened least-squares problem (M, b~) of a `hard` case, assembled from the SPEC's data (never from the
+    sampler): data row tau g / tau y, then the prior rows."""
+    L = _L()
+    tau = float(case["tau"])
+    g = L.inp(case["g"])
+    if case["fam"] == "rto":
+        rows = [np.atleast_2d(L.inp(b["L"])) for b in case["prior"]["blocks"]]
+        rhs = [np.atleast_2d(L.inp(b["L"])) @ L.inp(b["mu"]) for b in case["prior"]["blocks"]]
+    else:
+        f = np.sqrt(1.0 / float(L.qval(case["scale_q"])))
+        Dw = f * np.sqrt(L.qnp(case["w_q"]))[:, None] * L.inp(case["D"])
+        rows, rhs = [Dw], [Dw @ L.inp(case["loc"])]
+    return np.vstack([tau * g[None, :]] + rows), np.concatenate([[tau * float(case["yv"])]] + rhs)
+
+
+def _plain_cgls(M, b, x0, maxit, tol):
+    """Independent Hestenes-Stiefel CGLS (dense numpy), used ONLY by the vacuity guard.  Returns the list of iterates."""
+    x = np.array(x0, dtype=float)
+    r = b - M @ x
+    s = M.T @ r
+    p = s.copy()
+    norms0 = np.linalg.norm(s)
+    gamma = norms0 ** 2
+    its = []
+    for _ in range(int(maxit)):
+        q = M @ p
+        delta = float(q @ q)
+        if delta == 0 or gamma == 0:
+            break
+        alpha = gamma / delta
+        x = x + alpha * p
+        r = r - alpha * q
+        s = M.T @ r
+        g1, gamma = gamma, float(s @ s)
+        p = s + (gamma / g1) * p
+        its.append(x.copy())
+        if np.sqrt(gamma) <= tol * norms0:
+            break
+    return its
+
+
+def _hard_guard(ctx, case, x0, mu, cov, maxit, tag):
+    """Vacuity guard for one (instance, starting point).  Runs the independent CGLS on the spec's stacked system for the
+    perturbations 0, e_1 .. e_N and returns True iff (a) stopped after n = len(x0) iterations it misses the exact offset by
+    more than HARD_GUARD * HARD_RTOL, and (b) run with the user's setting it reaches offset and covariance to better than
+    HARD_RTOL / HARD_GUARD.  (a) false: the instance is not hard (nothing to learn); (b) false: double precision cannot
+    deliver the comparison tolerance (asserting it would be a false alarm)."""
+    L = _L()
+    M, bt = _hard_stacked(case)
+    N, n = M.shape
+    fam = case["fam"] + ("/" + case["pk"] if case["fam"] == "rto" else "")
+    obs = ctx.observations.setdefault("hard_guard", {}).setdefault(fam, {"counted": 0, "not_hard": 0, "not_attainable": 0, "n": [], "iterations_needed": [],
+                                                                         "err_after_n_min": None, "err_converged_max": 0.0, "cov_err_converged_max": 0.0})
+    sols_n, sols_c, need = [], [], None
+    for q in range(N + 1):
+        e = np.zeros(N)
+        if q:
+            e[q - 1] = 1.0
+        its = _plain_cgls(M, bt + e, x0, maxit, HARD_TOL)
+        if len(its) <= n:
+            sols_n.append(its[-1] if its else np.array(x0, dtype=float)); sols_c.append(sols_n[-1])
+        else:
+            sols_n.append(its[n - 1]); sols_c.append(its[-1])
+        if q == 0:
+            errs = [L.rel_err(t, mu) for t in its]
+            need = next((i + 1 for i, v in enumerate(errs) if v <= HARD_RTOL / HARD_GUARD), None)
+    err_n = L.rel_err(sols_n[0], mu)
+    err_c = L.rel_err(sols_c[0], mu)
+    Tc = np.array([t - sols_c[0] for t in sols_c[1:]]).T
+    cov_c = L.rel_err(Tc @ Tc.T, cov, scale=1e-3)
+    if not (err_c <= HARD_RTOL / HARD_GUARD and cov_c <= HARD_RTOL / HARD_GUARD):
+        obs["not_attainable"] += 1
+        return False
+    if not (err_n > HARD_GUARD * HARD_RTOL and need is not None and need > n):
+        obs["not_hard"] += 1
+        return False
+    obs["counted"] += 1
+    if n not in obs["n"]:
+        obs["n"].append(n)
+    if need not in obs["iterations_needed"]:
+        obs["iterations_needed"] = sorted(obs["iterations_needed"] + [need])
+    obs["err_after_n_min"] = err_n if obs["err_after_n_min"] is None else min(obs["err_after_n_min"], err_n)
+    obs["err_converged_max"] = max(obs["err_converged_max"], err_c)
+    obs["cov_err_converged_max"] = max(obs["cov_err_converged_max"], cov_c)
+    return True
+
+
+def maxit_of(case):
+    return HARD_MAXIT(case["n"])
+
+
+def _hard_far(n):
+    return np.array([50.0 * (-1) ** i * ((i % 3) + 1) for i in range(n)])
+
+
+def _hard_measured(ctx, fam, e_off, e_cov):
+    """largest deviation of the implementation from the exact values on the counted instances (evidence: distance to HARD_RTOL)"""
+    m = ctx.observations.setdefault("hard_measured_max_rel_err", {}).setdefault(fam, {"offset": 0.0, "cov": 0.0})
+    m["offset"], m["cov"] = max(m["offset"], float(e_off)), max(m["cov"], float(e_cov))
+
+
+def _hard_compare(ctx, case, iface, draw, mu, cov, tag, offsets):
+    L = _L()
+    try:
+        off, T, N = L.affine_readoff(draw)
+    except L.ScriptError as e:
+        ctx.mismatch(_hard_sig(case, iface, "draws"), case, "transition does not consume exactly one standard-normal vector: %s" % e)
+        return None
+    ctx.case(("hard", iface, tag, _hard_sig(case, iface, "")), facet="hard/%s/%s" % (case["fam"], iface.split(".")[0]))
+    _hard_measured(ctx, "rto", L.rel_err(off, mu), L.rel_err(T @ T.T, cov, scale=1e-3))
+    if L.rel_err(off, mu) > HARD_RTOL:
+        ctx.mismatch(_hard_sig(case, iface, "offset"), case, "ill-conditioned instance, inner solver asked to converge (maxit = %d, tol = %g): next state for "
+                     "perturbation 0 is not the posterior mean (current state %s)" % (maxit_of(case), HARD_TOL, tag), expected=mu, observed=off)
+    if L.rel_err(T @ T.T, cov, scale=1e-3) > HARD_RTOL:
+        ctx.mismatch(_hard_sig(case, iface, "cov"), case, "ill-conditioned instance, inner solver asked to converge (maxit = %d, tol = %g): linear part T of "
+                     "the step does not reproduce the covariance, T T^T != Lambda^-1 (current state %s)" % (maxit_of(case), HARD_TOL, tag),
+                     expected=cov, observed=T @ T.T)
+    offsets.append((tag, off, T))
+    return off, T, N
+
+
+def check_hard_rto(ctx, case):
+    """Linear RTO on an ill-conditioned posterior.  Both interfaces, solver setting handed to the constructor and assigned to
+    the public attributes of an existing sampler; current states zero and far away; successive transitions."""
+    import cuqi
+    L = _L()
+    mu, cov = _hard_expect(case)
+    n = case["n"]
+    maxit = HARD_MAXIT(n)
+    states = [(tag, x0) for tag, x0 in (("zero", np.zeros(n)), ("far", _hard_far(n))) if _hard_guard(ctx, case, x0, mu, cov, maxit, tag)]
+    if not states:
+        return 0
+    try:
+        post = L.build_rto_posterior(case)
+    except Exception as e:
+        ctx.mismatch(_hard_sig(case, "build", "error"), case, "posterior of a documented linear-Gaussian configuration cannot be built: %r" % (e,))
+        return 0
+
+    def exp_ctor(x0):
+        s = cuqi.experimental.mcmc.LinearRTO(post, initial_point=np.array(x0, dtype=float), maxit=maxit, tol=HARD_TOL)
+        s.initialize()
+        return s
+
+    def exp_assigned(x0):
+        s = cuqi.experimental.mcmc.LinearRTO(post, initial_point=np.array(x0, dtype=float))      # default maxit / tol
+        s.initialize()
+        s.maxit, s.tol = maxit, HARD_TOL                                                             # public attributes
+        return s
+
+    def leg_ctor(x0):
+        return cuqi.sampler.LinearRTO(post, x0=np.array(x0, dtype=float), maxit=maxit, tol=HARD_TOL)
+
+    def leg_assigned(x0):
+        s = cuqi.sampler.LinearRTO(post, x0=np.array(x0, dtype=float))
+        s.maxit, s.tol = maxit, HARD_TOL
+        return s
+
+    for iface, make, mkdraw in (("experimental", exp_ctor, _exp_draw), ("experimental.assigned", exp_assigned, _exp_draw),
+                                ("legacy", leg_ctor, _legacy_draw), ("legacy.assigned", leg_assigned, _legacy_draw)):
+        offsets = []
+        try:
+            for tag, x0 in states:
+                if iface.endswith(".assigned") and tag != states[-1][0]:
+                    continue
+                s = make(x0)
+                draw = mkdraw(s, x0)
+                got = _hard_compare(ctx, case, iface, draw, mu, cov, tag, offsets)
+                if got is None:
+                    break
+                off, T, N = got
+                if tag == states[-1][0] and N >= 2 and not iface.endswith(".assigned"):
+                    # two successive transitions of one object, the second one from wherever the first one ended
+                    if iface == "experimental":
+                        draw([L.Unit(0)])
+                        second = draw([L.Unit(N - 1)], reset=False)
+                    else:
+                        second = draw([L.Unit(0), L.Unit(N - 1)])
+                    if L.rel_err(second, off + T[:, N - 1]) > 2 * HARD_RTOL:
+                        ctx.mismatch(_hard_sig(case, iface, "state"), case, "ill-conditioned instance: second of two successive draws depends on the first",
+                                     expected=off + T[:, N - 1], observed=second)
+            if len(offsets) >= 2:
+                (t0, o0, T0), (t1, o1, T1) = offsets[0], offsets[-1]
+                if L.rel_err(o1, o0) > 2 * HARD_RTOL or T0.shape != T1.shape or L.rel_err(T1 @ T1.T, T0 @ T0.T, scale=1e-3) > 2 * HARD_RTOL:
+                    ctx.mismatch(_hard_sig(case, iface, "state"), case, "ill-conditioned instance: the draw depends on the current state (%s vs %s)" % (t0, t1),
+                                 expected={"offset": o0, "TTt": T0 @ T0.T}, observed={"offset": o1, "TTt": T1 @ T1.T})
+        except L.MachineryError:
+            raise
+        except Exception as e:
+            ctx.mismatch(_hard_sig(case, iface, "error"), case, "sampler refuses / crashes on a documented linear-Gaussian configuration: %r" % (e,))
+    return len(states)
+
+
+def _hard_ugla_key(c):
+    return (c["n"], c["av"], c["lk"], c["u"], c["si"], c["bi"], c["se"])
+
+
+def check_hard_ugla(ctx, variants):
+    """UGLA on an ill-conditioned local Gaussian (variants: one TLC case per point at which the weights may be evaluated)."""
+    import cuqi
+    L = _L()
+    case = variants[0]
+    n = case["n"]
+    maxit = HARD_MAXIT(n)
+    xk = L.inp(case["xk"])
+    beta = float(L.qval(case["beta_q"]))
+    scale = float(L.qval(case["scale_q"]))
+    loc = {"zero": 0.0, "scalar": float(case["loc"][0]), "vec": L.inp(case["loc"])}[case["lk"]]
+    exps = [_hard_expect(v) for v in variants]
+    hard = [_hard_guard(ctx, v, xk, e[0], e[1], maxit, "xk") for v, e in zip(variants, exps)]
+    if not any(hard):
+        return 0
+    try:
+        x = cuqi.distribution.LMRF(loc, scale, bc_type="zero", geometry=n, name="x")
+        model = L.linear_model([case["g"]], "matrix" if (case["u"] + case["si"]) % 2 else "func")
+        y = cuqi.distribution.Gaussian(model(x), name="y", **L.gauss_kwargs(case["noise"]))
+        post = cuqi.distribution.JointDistribution(x, y)(y=L.inp(case["y"]))
+    except Exception as e:
+        ctx.mismatch(_hard_sig(case, "build", "error"), case, "posterior with LMRF prior cannot be built: %r" % (e,))
+        return 0
+    D = np.asarray(x._diff_op.get_matrix().todense(), dtype=float) if hasattr(x, "_diff_op") else None
+    if D is not None and not np.array_equal(D, L.inp(case["D"])):
+        raise L.MachineryError("LMRF difference operator is not the zero-boundary first-order stencil assumed by the spec (see C20)")
+    x_init = xk + np.arange(1.0, n + 1.0)        # constructed elsewhere, then moved to x_k (as check_ugla)
+
+    def exp_ctor():
+        s = cuqi.experimental.mcmc.UGLA(post, initial_point=x_init.copy(), maxit=maxit, tol=HARD_TOL, beta=beta)
+        s.initialize()
+        return s
+
+    def exp_assigned():
+        s = cuqi.experimental.mcmc.UGLA(post, initial_point=x_init.copy(), beta=beta)
+        s.initialize()
+        s.maxit, s.tol = maxit, HARD_TOL
+        return s
+
+    def leg_ctor():
+        return cuqi.sampler.UGLA(post, x0=x_init.copy(), maxit=maxit, tol=HARD_TOL, beta=beta)
+
+    def leg_assigned():
+        s = cuqi.sampler.UGLA(post, x0=x_init.copy(), beta=beta)
+        s.maxit, s.tol = maxit, HARD_TOL
+        return s
+
+    for iface, make, mkdraw in (("experimental", exp_ctor, _exp_draw), ("experimental.assigned", exp_assigned, _exp_draw),
+                                ("legacy", leg_ctor, _legacy_draw), ("legacy.assigned", leg_assigned, _legacy_draw)):
+        try:
+            s = make()
+            off, T, N = L.affine_readoff(mkdraw(s, xk))
+        except L.ScriptError as e:
+            ctx.mismatch(_hard_sig(case, iface, "draws"), case, "transition does not consume exactly one standard-normal vector: %s" % e)
+            continue
+        except Exception as e:
+            ctx.mismatch(_hard_sig(case, iface, "error"), case, "UGLA refuses / crashes on a documented configuration: %r" % (e,))
+            continue
+        C = T @ T.T
+        chosen = None
+        for i, v in enumerate(variants):
+            if L.rel_err(C, exps[i][1], scale=1e-3) <= HARD_RTOL:
+                chosen = i
+                break
+        if chosen is not None and not hard[chosen]:
+            continue                                  # the variant the implementation follows is not a hard instance: nothing asserted
+        ctx.case(("hard", iface, _hard_sig(case, iface, "")), facet="hard/ugla/%s" % iface.split(".")[0])
+        if chosen is None:
+            ctx.mismatch(_hard_sig(case, iface, "cov"), case, "ill-conditioned instance, inner solver asked to converge (maxit = %d, tol = %g): covariance of the "
+                         "UGLA step is not the covariance of the local Gaussian approximation at the current state" % (maxit_of(case), HARD_TOL),
+                         expected=[e[1] for e in exps], observed=C)
+            chosen = 0
+        _hard_measured(ctx, "ugla", L.rel_err(off, exps[chosen][0]), L.rel_err(C, exps[chosen][1], scale=1e-3))
+        if L.rel_err(off, exps[chosen][0]) > HARD_RTOL:
+            ctx.mismatch(_hard_sig(case, iface, "offset"), case, "ill-conditioned instance, inner solver asked to converge (maxit = %d, tol = %g): UGLA step for "
+                         "perturbation 0 is not the mean of the local Gaussian approximation at the current state" % (maxit_of(case), HARD_TOL),
+                         expected=exps[chosen][0], observed=off)
+    return 1
+
+
+def _hard_wd(label):
+    import os
+    from cuqiverif import tlc
+    return os.path.join(tlc.WORK, "LinGauss-c06-hard-%s-%d" % (label, os.getpid()))
+
+
+def _start_hard_tlc(ctx):
+    """the two TLC runs of part hard, in background threads (explicit work directories, as c06_seq.start_tlc)"""
+    import concurrent.futures
+    pool = concurrent.futures.ThreadPoolExecutor(max_workers=2)
+    jobs = {"hard": pool.submit(ctx.tlc, "LinGauss", cfg="LinGauss.hard.%s.cfg" % ctx.tier, workers=4, timeout=1500, workdir=_hard_wd("main")),
+            "dev": pool.submit(ctx.tlc, "LinGauss", cfg="LinGauss.dev_hard_PriorMeanNotWhitened.cfg", workers=1, timeout=600,
+                               expect_violation=True, workdir=_hard_wd("dev"))}
+    pool.shutdown(wait=False)
+    return jobs
+
+
+def _discard_hard_tlc(jobs):
+    from cuqiverif import tlc
+    for f in jobs.values():
+        try:
+            tlc.cleanup(f.result())
+        except BaseException:      # noqa: BLE001
+            pass
+    for label in ("main", "dev"):
+        tlc.cleanup(_hard_wd(label))
+
+
+def _run_hard(ctx, jobs):
+    """part `hard` of LinGauss.tla: TLC (+ one named deviation), vacuity guard, replay."""
+    from cuqiverif.core import MachineryError
+    from cuqiverif import tlc
+    try:
+        res, dev = jobs["hard"].result(), jobs["dev"].result()
+    except BaseException:
+        _discard_hard_tlc(jobs)
+        raise
+    ctx.model_must_hold(res, "LinGauss.hard")
+    cases = [c for c in res.cases if c.get("kind") == "hard"]
+    tlc.cleanup(res)
+    tlc.cleanup(dev)
+    if dev.ok or dev.violated != "HardNormalEquations":
+        raise MachineryError("deviation PriorMeanNotWhitened (part hard): expected TLC to violate HardNormalEquations, got %r" % (dev.violated,))
+    ctx.observations.setdefault("deviations_refuted_by_tlc", {})["hard/PriorMeanNotWhitened"] = "HardNormalEquations"
+    rto = [c for c in cases if c["fam"] == "rto"]
+    groups = {}
+    for c in cases:
+        if c["fam"] == "ugla":
+            groups.setdefault(_hard_ugla_key(c), []).append(c)
+    if not rto or not groups:
+        raise MachineryError("no ill-conditioned cases emitted by LinGauss part hard (rto %d, ugla %d)" % (len(rto), len(groups)))
+    done = 0
+    for c in rto:
+        done += 1 if check_hard_rto(ctx, c) else 0
+    for key in sorted(groups):
+        done += check_hard_ugla(ctx, sorted(groups[key], key=lambda c: c["wv"]))
+    g = ctx.observations.get("hard_guard", {})
+    if not ctx.violations:
+        for fam in ("rto/cat", "rto/diag", "ugla"):
+            if g.get(fam, {}).get("counted", 0) == 0:
+                raise MachineryError("vacuous: no ill-conditioned instance of family %s passed the guard (CGLS with maxit = n misses by > %g, "
+                                     "converged CGLS within %g): %r" % (fam, HARD_GUARD * HARD_RTOL, HARD_RTOL / HARD_GUARD, g.get(fam)))
+        if g["rto/diag"]["iterations_needed"] and max(g["rto/diag"]["iterations_needed"]) <= 10:
+            raise MachineryError("vacuous: no instance needs more than 10 CGLS iterations (the default maxit of LinearRTO): %r" % (g["rto/diag"],))
+    ctx.traces += done
+    big = [c for c in rto if c["pk"] == "diag"]
+    for c in (rto[0], big[0] if big else rto[-1]):
+        ctx.sample({"case": {k: c[k] for k in ("kind", "fam", "n", "se", "g", "yv", "sigma_q", "prior", "Hi_q", "u0_q", "v_q", "b_q", "iota_q")}})
+    ctx.assumptions += ["ill-conditioned instances (part hard): 'run to convergence' = maxit = 4 n + 8 (CGLS needs about 2.5 n there), tol = %g; comparison tolerance %g relative "
+                        "(converged double-precision CGLS measured <= %g, CGLS stopped after n iterations >= %g on every counted instance)"
+                        % (HARD_TOL, HARD_RTOL, HARD_RTOL / HARD_GUARD, HARD_GUARD * HARD_RTOL),
+                        "part hard: TLC supplies Hi, v, b, u0, iota and the rational sigma exactly; the replayer evaluates kappa = 1/(b + sigma^2) "
+                        "with exact fractions (sigma^2 = 4^-se exceeds 32 bit)"]
+
+
+# --------------------------------------------------------------------------------------------------------------
 def _deviations(ctx, names):
     """Named deviations: TLC must refute each one on the specification (non-vacuity of the invariants)."""
     from cuqiverif.core import MachineryError
@@ -280,14 +694,16 @@ def _deviations(ctx, names):
 def run(ctx):
     from cuqiverif import c06_seq
     seq_jobs = c06_seq.start_tlc(ctx)          # LinGaussSeq (pairs of configurations, one sampler object), in background threads
+    hard_jobs = _start_hard_tlc(ctx)           # LinGauss part hard (ill-conditioned instances), in background threads
     try:
-        _run(ctx, seq_jobs)
+        _run(ctx, seq_jobs, hard_jobs)
     except BaseException:
         c06_seq.discard_tlc(seq_jobs)          # (no-op for runs already collected)
+        _discard_hard_tlc(hard_jobs)
         raise
 
 
-def _run(ctx, seq_jobs):
+def _run(ctx, seq_jobs, hard_jobs):
     from cuqiverif.core import MachineryError
     from cuqiverif import tlc, c06_seq
     res = ctx.tlc("LinGauss", cfg="LinGauss.rto.%s.cfg" % ctx.tier, workers=16, timeout=1500)
@@ -313,6 +729,7 @@ def _run(ctx, seq_jobs):
         check_ugla(ctx, sorted(groups[key], key=lambda c: c["wv"]))
     ctx.traces = len(rto_cases) + len(groups)
     c06_seq.run(ctx, seq_jobs)                  # sequences on ONE sampler object (target switched, maxit / tol / beta / x0 reassigned)
+    _run_hard(ctx, hard_jobs)                   # ill-conditioned instances: float CGLS needs more than n iterations (part hard)
     ntr = ctx.traces
     two = [c for c in rto_cases if c["nl"] == 2]
     for c in (rto_cases[0], two[0] if two else rto_cases[-1]):
@@ -320,7 +737,8 @@ def _run(ctx, seq_jobs):
     c = ugla_cases[len(ugla_cases) // 2]
     ctx.sample({"case": {k: c[k] for k in ("kind", "n", "m", "A", "y", "noise", "xk", "loc", "beta_q", "scale_q", "w_q", "mu_q", "LamInv_q")}})
     ctx.rule = ("one case per configuration emitted by TLC from LinGauss.tla (parts rto, ugla) with exact Lambda, rhs, mu_post, Lambda^-1; "
-                "non-trivial = distinct (configuration, sampler interface, current state) affine read-off or stacked-operator check")
+                "non-trivial = distinct (configuration, sampler interface, current state) affine read-off or stacked-operator check; "
+                "part hard: one case per ill-conditioned configuration, counted only if the vacuity guard (independent CGLS: n iterations miss, requested setting converges) holds")
     ctx.exhaustive = True
     ctx.traces = ntr
     ctx.assumptions += ["inner CGLS with maxit=%d, tol=%g counts as 'run to convergence'" % (MAXIT, TOL),
@@ -337,6 +755,14 @@ def replay(ctx, case):
         return c06_seq.replay(ctx, case)
     if case.get("kind") == "rto":
         return check_rto(ctx, case)
+    if case.get("kind") == "hard":
+        if case["fam"] == "rto":
+            return check_hard_rto(ctx, case)
+        from cuqiverif import tlc
+        res = ctx.tlc("LinGauss", cfg="LinGauss.hard.thorough.cfg", workers=8, timeout=1500)
+        vs = [c for c in res.cases if c.get("fam") == "ugla" and _hard_ugla_key(c) == _hard_ugla_key(case)] or [case]
+        tlc.cleanup(res)
+        return check_hard_ugla(ctx, sorted(vs, key=lambda c: c["wv"]))
     if case.get("kind") == "ugla":
         # re-emit the sibling variant (other evaluation point of the weights) from TLC to stay spec-driven
         from cuqiverif import tlc
